@@ -1,0 +1,42 @@
+//go:build verif
+// +build verif
+
+package schedulerplugin
+
+import (
+	corev1 "k8s.io/api/core/v1"
+	"tkestack.io/galaxy/pkg/ipam/cloudprovider"
+)
+
+// This file is only compiled with the `verif` build tag. It exports thin wrappers around unexported entry
+// points so that an external verification harness can drive them one step at a time. It adds no behaviour.
+
+// VerifResyncPod runs one resync pass.
+func (p *FloatingIPPlugin) VerifResyncPod() error {
+	return p.resyncPod()
+}
+
+// VerifUnbind runs one unbind for the given pod object.
+func (p *FloatingIPPlugin) VerifUnbind(pod *corev1.Pod) error {
+	return p.unbind(pod)
+}
+
+// VerifSyncPodIPs runs the pod-IP sync pass.
+func (p *FloatingIPPlugin) VerifSyncPodIPs() {
+	p.syncPodIPsIntoDB()
+}
+
+// VerifSetCloudProvider sets the cloud provider.
+func (p *FloatingIPPlugin) VerifSetCloudProvider(cp cloudprovider.CloudProvider) {
+	p.cloudProvider = cp
+}
+
+// VerifPopReleaseEvent does a non-blocking receive from the unreleased channel, which is what loop() consumes.
+func (p *FloatingIPPlugin) VerifPopReleaseEvent() (*corev1.Pod, bool) {
+	select {
+	case ev := <-p.unreleased:
+		return ev.pod, true
+	default:
+		return nil, false
+	}
+}
